@@ -3,5 +3,5 @@ CONSTANTS
   Streams <- HsSet
   MaxChunk = 16
   Variant = "early"
-INVARIANTS AtRestI LeftoverI BoundedI
+INVARIANTS AtRestI
 CHECK_DEADLOCK FALSE
